@@ -250,7 +250,7 @@ func (fr *frame) run() {
 		for _, instr := range b.Instrs[nphi:] {
 			in.path.steps++
 			if in.path.steps > maxSteps {
-				panic(pathEnd{"budget", "step budget"})
+				panic(pathEnd{"budget", "step budget in " + shortName(fr.fn.String())})
 			}
 			if fr.visit(instr) {
 				jumped = true
